@@ -740,6 +740,9 @@ pub struct QuotedStrSplitIter<'a> {
     quotes: InQuotes,
     current: String,
     escaped: usize,
+    /// A quoted section was closed in the current token:
+    /// the token exists even if it's empty (e.g. `""`).
+    closed_quote: bool,
 }
 impl Iterator for QuotedStrSplitIter<'_> {
     type Item = String;
@@ -749,7 +752,8 @@ impl Iterator for QuotedStrSplitIter<'_> {
             let c = match self.iter.next() {
                 Some(c) => c,
                 None => {
-                    if !self.current.is_empty() {
+                    if !self.current.is_empty() || self.closed_quote {
+                        self.closed_quote = false;
                         return Some(std::mem::take(&mut self.current));
                     }
                     return None;
@@ -772,9 +776,10 @@ impl Iterator for QuotedStrSplitIter<'_> {
             if self.escaped != 1 {
                 match c {
                     ' ' if !self.quotes.quoted() => {
-                        if self.current.is_empty() {
+                        if self.current.is_empty() && !self.closed_quote {
                             continue;
                         }
+                        self.closed_quote = false;
                         return Some(std::mem::replace(
                             &mut self.current,
                             String::with_capacity(16),
@@ -787,6 +792,7 @@ impl Iterator for QuotedStrSplitIter<'_> {
                         }
                         InQuotes::Double => {
                             self.quotes = InQuotes::No;
+                            self.closed_quote = true;
                             continue;
                         }
                         InQuotes::Single => {}
@@ -798,6 +804,7 @@ impl Iterator for QuotedStrSplitIter<'_> {
                         }
                         InQuotes::Single => {
                             self.quotes = InQuotes::No;
+                            self.closed_quote = true;
                             continue;
                         }
                         InQuotes::Double => {}
@@ -834,6 +841,7 @@ pub fn quoted_str_split(s: &str) -> QuotedStrSplitIter {
         quotes: InQuotes::No,
         current: String::with_capacity(16),
         escaped: 0,
+        closed_quote: false,
     }
 }
 /// Encodes, to be decoded by [`quoted_str_split`], `src` by appending to `dest`.
